@@ -308,9 +308,10 @@ def run_property(pid, tier, technique_extra='', extra=None):
         configs = [dict(N=2, M=1, D=1, req_a=1, second_form=True, **A), dict(N=2, M=1, D=1, req_a=1, second_form=True, **B), dict(N=2, M=2, D=2, req_a=2, second_form=False, **Cdef)]
     else:
         configs = [dict(N=2, M=1, D=1, req_a=1, second_form=True, order='symbolic', n_modes=3, n_answers=3),
-                   dict(N=3, M=1, D=1, req_a=2, second_form=True, **A), dict(N=3, M=1, D=1, req_a=2, second_form=True, **B),
                    dict(N=2, M=2, D=2, req_a=1, second_form=False, **A), dict(N=2, M=2, D=2, req_a=1, second_form=False, **B),
-                   dict(N=2, M=1, D=1, req_a=1, second_form=True, instanced=True, **A)]
+                   dict(N=2, M=2, D=2, req_a=2, second_form=False, **Cdef),
+                   dict(N=2, M=1, D=1, req_a=1, second_form=True, instanced=True, **A),
+                   dict(N=3, M=1, D=1, req_a=2, second_form=False, **B)]
     c = common.Check(pid, tier, 'bounded symbolic execution of the real Solver/DependencyTracker/ValueStore/InputStore on generated form programs: line behaviour, input presence, prompt answers and attempt order are SMT choices explored lazily to exhaustion; values are EUF terms' + technique_extra,
                      ['habutax.solver.Solver.solve/_attempt_field/_attempt_input/_add_form/_add_unattempted', 'habutax.solver.DependencyTracker.*', 'habutax.values.ValueStore', 'habutax.form.FormAccessor',
                       'habutax.inputs.InputStore.__getitem__/__setitem__/provides', 'habutax.fields.TypedField.value', 'habutax.inputs.IntegerInput.value/valid'])
